@@ -55,12 +55,30 @@ class CubeInner:
         return x
 
 
+class PowInner:
+    """user-supplied inner distance carrying its own parameters (an instance, not a class):
+    scale * |x-y|**p, identity result / inner_val"""
+    def __init__(self, p, scale):
+        self.p, self.scale = p, scale
+
+    def inner_dist(self, x, y):
+        return self.scale * abs(x - y) ** self.p
+
+    def result(self, x):
+        return x
+
+    def inner_val(self, x):
+        return x
+
+
 def py_distance(case, container="numpy", fast=False):
     from dtaidistance import dtw, dtw_ndim
     nd = case.get("ndim", 1)
     kw = dc.py_kwargs(case)
     if case.get("inner") == "cube":
         kw["inner_dist"] = CubeInner
+    elif case.get("inner") == "pow":
+        kw["inner_dist"] = PowInner(case["p"], case["mul"])
     s1 = to_container(case["s1"], container, nd)
     s2 = to_container(case["s2"], container, nd)
     try:
